@@ -18,6 +18,9 @@
 //!   their sequential replay and acceptance must equal the model's verdict exactly (both directions,
 //!   nested-group adds excepted); (d) every id ever reported by `root_members()`/`members()` was the target of an
 //!   accepted create or add.
+//! * `revoked_author_branches`: the "accepted, then filtered" half of (a) in the one shape where the
+//!   crate documentation states the outcome without ambiguity: a manager is removed/demoted while
+//!   it concurrently authors operations; those are accepted into the graph but have no effect.
 //!
 //! "Rejected operations leave the replica unchanged" holds by construction at this API (`process`
 //! consumes the state and returns it only on `Ok`; callers keep their previous value, as the
@@ -562,6 +565,242 @@ fn introduced_only(w: &World<Cond>, r: usize, groups: &[char]) -> Result<(), Str
     Ok(())
 }
 
+// ---------------------------------------------------------------------------------------------
+// Revoked author: two branches (documented strong-remove rules 1, 3 and 4 in their simplest form)
+
+#[derive(Clone, Debug, Serialize, Deserialize)]
+struct SimpleOp {
+    /// 0 add a fresh individual, 1 remove, 2 change access.
+    kind: u8,
+    target: u16,
+    acc: Acc,
+}
+
+#[derive(Clone, Debug, Serialize, Deserialize)]
+struct BranchCase {
+    /// Initial members C, D (present or not) besides the managers A and B; never managers.
+    c: Option<Acc>,
+    d: Option<Acc>,
+    /// A's branch: `None` = A removes B, `Some(level 0..=2)` = A demotes B below Manage.
+    demote_to: Option<Acc>,
+    /// After a removal A may re-add B.
+    readd: Option<Acc>,
+    /// Further operations of A after the revocation (on C, D, E only).
+    a_ops: Vec<SimpleOp>,
+    /// B's concurrent operations (on C, D, F only; never on A or B).
+    b_ops: Vec<SimpleOp>,
+    /// A member B made a manager continues with an operation of its own.
+    follow: bool,
+    /// Delivery order keys of the fresh replica.
+    order: Vec<u16>,
+}
+
+fn simple_action(view: &Obs, me: char, pool: &[char], op: &SimpleOp) -> Option<GroupAction<char, Cond>> {
+    let touchable: Vec<Member> = view.iter().map(|(m, _)| *m).filter(|m| !m.0 && m.1 != 'A' && m.1 != 'B' && m.1 != me).collect();
+    match op.kind % 3 {
+        0 => {
+            let fresh: Vec<char> = pool.iter().copied().filter(|c| !view.iter().any(|(m, _)| *m == (false, *c))).collect();
+            if fresh.is_empty() {
+                return None;
+            }
+            Some(GroupAction::Add {
+                member: GroupMember::Individual(fresh[idx(op.target, fresh.len())]),
+                access: access::<Cond>(op.acc),
+            })
+        }
+        1 => {
+            if touchable.is_empty() {
+                return None;
+            }
+            Some(GroupAction::Remove {
+                member: member_of(touchable[idx(op.target, touchable.len())]),
+            })
+        }
+        _ => {
+            if touchable.is_empty() {
+                return None;
+            }
+            let m = touchable[idx(op.target, touchable.len())];
+            let current = view.iter().find(|(x, _)| *x == m).map(|(_, a)| a.0).unwrap_or(0);
+            if op.acc.level >= current {
+                Some(GroupAction::Promote {
+                    member: member_of(m),
+                    access: access::<Cond>(op.acc),
+                })
+            } else {
+                Some(GroupAction::Demote {
+                    member: member_of(m),
+                    access: access::<Cond>(op.acc),
+                })
+            }
+        }
+    }
+}
+
+fn check_branches(case: &BranchCase) -> CaseResult {
+    type C = Cond;
+    let clamp = |a: Acc| Acc { level: a.level.min(2), cond: a.cond };
+    let mut initial = vec![(1u8, Acc { level: 3, cond: 0 })];
+    if let Some(a) = case.c {
+        initial.push((2, clamp(a)));
+    }
+    if let Some(a) = case.d {
+        initial.push((3, clamp(a)));
+    }
+    let h = History {
+        actors: 6,
+        subs: 0,
+        initial,
+        sub_initial: vec![],
+        steps: vec![],
+    };
+    let mut w = World::<C>::new(&h)?;
+    let (a, b, f) = (0usize, 1usize, 5usize);
+
+    // A's branch.
+    let mut a_branch: Vec<u32> = vec![];
+    let revoke = match case.demote_to {
+        None => GroupAction::Remove {
+            member: GroupMember::Individual('B'),
+        },
+        Some(acc) => GroupAction::Demote {
+            member: GroupMember::Individual('B'),
+            access: access::<C>(clamp(acc)),
+        },
+    };
+    a_branch.push(w.author(a, ROOT, revoke).map_err(|e| format!("A's revocation of B was rejected on A's own replica: {e:?}"))?);
+    if let (None, Some(acc)) = (case.demote_to, case.readd) {
+        a_branch.push(
+            w.author(
+                a,
+                ROOT,
+                GroupAction::Add {
+                    member: GroupMember::Individual('B'),
+                    access: access::<C>(acc),
+                },
+            )
+            .map_err(|e| format!("A's re-add of B was rejected on A's own replica: {e:?}"))?,
+        );
+    }
+    for op in &case.a_ops {
+        let view = obs_root(&w.replicas[a].y, ROOT);
+        if let Some(action) = simple_action(&view, 'A', &['E'], op) {
+            if let Ok(id) = w.author(a, ROOT, action) {
+                a_branch.push(id);
+            }
+        }
+    }
+
+    // B's concurrent branch (B has only seen the create).
+    let before_b = obs_root(&w.replicas[b].y, ROOT);
+    let mut b_accepted = 0usize;
+    let mut made_manager: Option<char> = None;
+    for op in &case.b_ops {
+        let view = obs_root(&w.replicas[b].y, ROOT);
+        if let Some(action) = simple_action(&view, 'B', &['F', 'D'], op) {
+            if let GroupAction::Add { member, access } = &action {
+                if access.is_manage() && member.id() == 'F' {
+                    made_manager = Some('F');
+                }
+            }
+            if w.author(b, ROOT, action).is_ok() {
+                b_accepted += 1;
+            }
+        }
+    }
+    let b_changed_its_view = obs_root(&w.replicas[b].y, ROOT) != before_b;
+    let mut followed = false;
+    if case.follow && made_manager == Some('F') && obs_root(&w.replicas[b].y, ROOT).iter().any(|(m, a)| *m == (false, 'F') && a.0 == MANAGE) {
+        w.sync(b, f)?;
+        let view = obs_root(&w.replicas[f].y, ROOT);
+        let action = if view.iter().any(|(m, _)| *m == (false, 'D')) {
+            GroupAction::Remove {
+                member: GroupMember::Individual('D'),
+            }
+        } else {
+            GroupAction::Add {
+                member: GroupMember::Individual('D'),
+                access: access::<C>(Acc { level: 1, cond: 0 }),
+            }
+        };
+        followed = w.author(f, ROOT, action).is_ok();
+        w.sync(f, b)?;
+    }
+
+    // Expected: the sequential replay of the create and A's branch only.
+    let create = &w.ops[&w.order[0]];
+    let Act::Create(init) = &create.act else { return Err("harness: first operation is not the create".into()) };
+    let mut gm = GroupModel::default();
+    for (m, acc) in init {
+        gm.members.insert(*m, crate::model::Rec { active: true, acc: *acc });
+    }
+    for id in &a_branch {
+        let info = &w.ops[id];
+        gm.apply('A', &info.act).map_err(|e| format!("harness: A's own branch is not valid in the model: {e} ({})", describe(info)))?;
+    }
+    let want: Obs = gm.active();
+
+    // Everybody gets everything: A after B's branch, B after A's, a fresh replica in a generated order.
+    w.sync(b, a)?;
+    w.sync(a, b)?;
+    let set = w.accepted_ids();
+    let mut fresh = Replica::<C>::new();
+    let mut remaining = set.clone();
+    let mut pos = 0usize;
+    while !remaining.is_empty() {
+        let ready: Vec<usize> = (0..remaining.len()).filter(|i| w.ops[&remaining[*i]].op.deps.iter().all(|d| fresh.has.contains(d))).collect();
+        if ready.is_empty() {
+            return Err("harness: no deliverable operation although some remain".into());
+        }
+        let pick = ready[idx(case.order.get(pos).copied().unwrap_or(0), ready.len())];
+        pos += 1;
+        let id = remaining.remove(pick);
+        let info = &w.ops[&id];
+        fresh.process(&info.op).map_err(|rej| format!("fresh replica rejected operation #{} ({}) that its author's replica accepted: {rej:?}", info.index, describe(info)))?;
+    }
+    for (name, y) in [("replica A", &w.replicas[a].y), ("replica B", &w.replicas[b].y), ("fresh replica", &fresh.y)] {
+        ensure_eq!(
+            obs_root(y, ROOT),
+            want,
+            "{name}: B was {} by A concurrently with B's own {} accepted operation(s){}; the documented rule invalidates all of them, so the direct members must be those of A's branch alone",
+            if case.demote_to.is_some() { "demoted below Manage" } else { "removed" },
+            b_accepted,
+            if followed { " (and one by a manager B had added)" } else { "" }
+        );
+    }
+    Ok(CaseOk::nontrivial(b_accepted > 0 && b_changed_its_view)
+        .label_if(case.demote_to.is_some(), "revocation_is_demotion")
+        .label_if(case.demote_to.is_none() && case.readd.is_some(), "removed_then_readded_by_remover")
+        .label_if(followed, "transitive_operation_by_member_added_by_revoked_author")
+        .label_if(a_branch.len() > 1, "remover_continues")
+        .label_if(b_accepted >= 3, "three_or_more_concurrent_operations_by_revoked_author"))
+}
+
+fn branch_case() -> impl Strategy<Value = BranchCase> {
+    let low = || (0u8..3, 0u8..=2).prop_map(|(level, cond)| Acc { level, cond });
+    let sop = || (0u8..3, any::<u16>(), acc_strategy(2)).prop_map(|(kind, target, acc)| SimpleOp { kind, target, acc });
+    (
+        prop::option::of(low()),
+        prop::option::of(low()),
+        prop::option::weighted(0.4, low()),
+        prop::option::weighted(0.3, acc_strategy(2)),
+        prop::collection::vec(sop(), 0..=3),
+        prop::collection::vec(sop(), 1..=5),
+        any::<bool>(),
+        prop::collection::vec(any::<u16>(), 0..=12),
+    )
+        .prop_map(|(c, d, demote_to, readd, a_ops, b_ops, follow, order)| BranchCase {
+            c,
+            d,
+            demote_to,
+            readd,
+            a_ops,
+            b_ops,
+            follow,
+            order,
+        })
+}
+
 pub fn run(mut ctx: Ctx) -> ! {
     ctx.assume("each group id is created once (as every caller does); operations reach a replica only after all their dependencies were accepted there");
     ctx.assume("promote is only asked to raise and demote to lower where the author can see the current level; groups are never asked to become managers through demote");
@@ -600,6 +839,17 @@ pub fn run(mut ctx: Ctx) -> ! {
             )
         },
         check_concurrent,
+    );
+    ctx.run_prop(
+        Part::new(
+            "revoked_author_branches",
+            "root group with managers A and B (+ optional plain members C, D); A removes B or demotes B below Manage (optionally re-adds B, continues with 0-3 operations on C/D/E) while B, not having seen that, authors 1-5 operations of its own (adds of fresh members incl. managers, removes, access changes on C/D/F; optionally a manager added by B acts too). Documented strong-remove rules (crate docs: concurrent actions of a removed/demoted manager are invalidated, also after a re-add, and transitively): every replica accepts all operations and its direct members equal the sequential replay of A's branch alone (independent model), in both arrival orders and a generated third; non-trivial = B's operations changed B's own view",
+            12_000,
+            400_000,
+        )
+        .min_nontrivial(0.5),
+        branch_case,
+        check_branches,
     );
     ctx.finish()
 }
